@@ -51,10 +51,20 @@ OtherKey == /\ offered' = [offered EXCEPT !.key = IF @ = <<"K", 0>> THEN <<"K", 
 \* the receiver is configured with another tag length and is offered the genuine tag cut to that length
 OtherTagLen == /\ offered.maclen = 0 /\ offered' = [offered EXCEPT !.maclen = 1]
                /\ ops' = Append(ops, [op |-> "othertaglen"])
+\* Key-wrap modes only: a peer that holds the key but does not follow SP 800-38F wraps an inner block of its own making (the integrity value
+\* of KW/KWP lies inside the wrapped string, so mutations of the string never reach the rules behind the first comparison):
+\*   single    KW over a single semiblock of key data (W outside its domain: n = 1)          aivswap   the other mode's integrity value
+\*   len0 / lenover / lenunder / lenmsb   KWP with a length field of 0, beyond the padded length, a whole semiblock below it, or >= 2^31
+\*   padnz     KWP with a non-zero octet in the padding                                     valid     a conforming wrap (positive control)
+\* The crafted string is foreign to both sealed messages, so the ideal verdict is "not genuine" (for "valid" the data layer decides).
+CraftKinds == {"single", "aivswap", "len0", "lenover", "lenunder", "lenmsb", "padnz", "valid"}
+Craft(kind) == /\ offered' = [offered EXCEPT !.ct = <<<<0, "craft", 0, 0>>>>]
+               /\ ops' = Append(ops, [op |-> "craft", kind |-> kind])
 Next == /\ Len(ops) < MaxOps
         /\ \/ \E f \in FieldSet, p \in {"first", "mid", "last"}, bit \in {1, 128} : Flip(f, p, bit)
            \/ \E f \in FieldSet : TruncBack(f) \/ TruncFront(f) \/ Extend(f, 0) \/ Extend(f, 255) \/ Prepend(f, 0) \/ Empty(f) \/ Splice(f)
            \/ Reorder \/ ShiftBoundary(1) \/ ShiftBoundary(2) \/ OtherKey \/ OtherTagLen
+           \/ \E k \in CraftKinds : Craft(k)
 Spec == Init /\ [][Next]_vars
 \* ideal-MAC verdict: genuine iff every field is that of one and the same sealed message under the sealing key and tag length
 Genuine == \E m \in {1, 2} : offered = Sealed(m)
